@@ -164,6 +164,11 @@ def run(ctx):
             a_, b_, c_ = reals[:3]
             exprs.append(("a*b/c", lambda p: p[a_] * p[b_] / p[c_], [a_, b_, c_]))
             exprs.append(("vector(a^2, a+b, sin(c))", lambda p: tf.stack([p[a_] ** 2, p[a_] + p[b_], tf.sin(p[c_])]), [a_, b_, c_]))
+            # a table of derived quantities (rank-2 tensor, not symmetric under transposition) and nested structures of tensors
+            exprs.append(("matrix(2x3)", lambda p: tf.stack([tf.stack([p[a_] ** 2, p[a_] * p[b_], tf.sin(p[c_])]),
+                                                           tf.stack([p[a_] + 3 * p[b_], p[b_] / p[c_], p[c_] ** 3])]), [a_, b_, c_]))
+            exprs.append(("list(scalar, vector, matrix(2x2))", lambda p: [p[a_] * p[b_], tf.stack([p[a_], p[b_] ** 2, p[c_]]),
+                                                                       tf.stack([tf.stack([p[a_], 2 * p[b_]]), tf.stack([p[c_] * p[a_], p[b_] - p[c_]])])], [a_, b_, c_]))
         for c0 in cplx[:2]:
             exprs.append(("|c|^2 (polar r,phi -> r^2)", lambda p, c0=c0: (p[c0 + "r"] * tf.cos(p[c0 + "i"])) ** 2 + (p[c0 + "r"] * tf.sin(p[c0 + "i"])) ** 2, [c0 + "r", c0 + "i"]))
             exprs.append(("re(c)*phi", lambda p, c0=c0: p[c0 + "r"] * tf.cos(p[c0 + "i"]) * p[c0 + "i"], [c0 + "r", c0 + "i"]))
@@ -173,14 +178,32 @@ def run(ctx):
                 with quiet():
                     with cfg.params_trans() as pt:
                         val_ = fexp(pt)
-                    err = np.asarray(pt.get_error(val_, keep=True))
-                    em = np.asarray(pt.get_error_matrix(val_ if val_.shape.rank else [val_]))
+                    structured = isinstance(val_, (list, tuple, dict)) or val_.shape.rank >= 2
+                    err_raw = pt.get_error(val_, keep=True)
+
+                    def flat_(x_):
+                        if isinstance(x_, dict):
+                            return np.concatenate([flat_(v_) for v_ in x_.values()])
+                        if isinstance(x_, (list, tuple)):
+                            return np.concatenate([flat_(v_) for v_ in x_])
+                        return np.asarray(x_, dtype=float).ravel()
+
+                    def shapes_(x_):
+                        if isinstance(x_, dict):
+                            return {k_: shapes_(v_) for k_, v_ in x_.items()}
+                        if isinstance(x_, (list, tuple)):
+                            return [shapes_(v_) for v_ in x_]
+                        return list(np.shape(x_))
+
+                    same_struct = shapes_(err_raw) == shapes_(val_)
+                    err = flat_(err_raw)
+                    em = None if structured else np.asarray(pt.get_error_matrix(val_ if val_.shape.rank else [val_]))
                 # FD Jacobian
                 def f_np(xv):
                     for k_, v_ in zip(tv, xv):
                         vm.variables[k_].assign(v_)
-                    return np.atleast_1d(np.asarray(fexp(vm.variables), dtype=float))
-                J = np.zeros((len(np.atleast_1d(np.asarray(val_))), n))
+                    return flat_(fexp(vm.variables))
+                J = np.zeros((len(flat_(val_)), n))
                 h = 1e-6
                 for j in range(n):
                     xp, xm = x0.copy(), x0.copy()
@@ -190,7 +213,7 @@ def run(ctx):
                 f_np(x0)
                 cov = J @ V @ J.T
                 ref = np.sqrt(np.diag(cov))
-                ok = np.allclose(np.atleast_1d(err), ref, rtol=1e-5, atol=1e-12) and np.allclose(em, cov, rtol=1e-5, atol=1e-12)
+                ok = same_struct and np.allclose(np.atleast_1d(err), ref, rtol=1e-5, atol=1e-12) and (em is None or np.allclose(em, cov, rtol=1e-5, atol=1e-12))
                 ctx.check("params_trans get_error == sqrt(J V J^T)", bool(ok), lambda: {"expression": ename, "lib_error": err, "ref_error": ref, "card": cards.short(card)},
                           mechanism="params_trans error: " + ename.split(" ")[0])
                 ctx.case(("pt", ename, cards.card_digest_key(card)), nontrivial=True)
